@@ -454,6 +454,10 @@ def run_property(module_name: str, tier: str, seed: int, jobs: int | None = None
     for p in parts:
         nsh = 1 if p.exhaustive is not None else max(1, int(p.shards.get(tier, 1)))
         n_ex = int(p.examples.get(tier, 50))
+        if tier == "quick":
+            # the per-part example counts were sized on a loaded machine; the quick tier runs twice as many (time budgets unchanged:
+            # a slow machine runs fewer, never more than the budget allows)
+            n_ex = int(n_ex * float(os.environ.get("VERIF_QUICK_SCALE", "2")))
         per = max(1, n_ex // nsh)
         for sh in range(nsh):
             tasks.append((module_name, p.name, tier, seed, sh, budget * p.weight, per, nsh))
